@@ -307,7 +307,9 @@ def judge(ctx, case, impl, sset, model):
         ndiff = sum(1 for a_, b_ in zip(M['outmask'], I['outmask']) if a_ != b_)
         if verdict == 'judged':
             ctx.disagree('iterfit:outmask', case, {'outmask': I['outmask']}, {'outmask': M['outmask']})
-        elif ndiff > max(2, n // 20) and case.get('gap') and not all(M['outmask']):
+        elif ndiff > max(2, n // 20) and case.get('gap') and not all(M['outmask']) and not all(I['outmask']):
+            # (an all-True answer of either side is iterfit's / the model's "gave up on a singular reduced knot set" exit,
+            #  reached or not by rounding: outside the statement, see LEVEL_NOTE)
             # without a known margin one or two points may sit on a limit; many differing points are not a rounding matter
             ctx.disagree('iterfit:outmask(many points, dropped breakpoints)', case, {'outmask': I['outmask']}, {'outmask': M['outmask']})
         else:
